@@ -497,3 +497,18 @@ Fixpoint bad_nested_in (l : list item) : bool :=
   | ICast d _ _ _ :: r => first_in_loop d r || bad_nested_in r
   | x :: r => bad_nested_in_item x || bad_nested_in r
   end.
+
+(* ---- Safe region for uses nested in loops below the cast's block --------------------------------- *)
+(* every item (at any depth): operations do not name another alias of the source, other items name
+   neither d nor such an alias *)
+Fixpoint inner_ok (d : nat) (others : list nat) (it : item) : bool :=
+  match it with
+  | IOp _ _ => negb (mentions others it) && sound_uses d it
+  | ILoop _ body => (fix go (l : list item) : bool :=
+                       match l with [] => true | x :: r => inner_ok d others x && go r end) body
+  | _ => negb (mentions (d :: others) it)
+  end.
+(* ... and the block is outside the finding classes F26 (an output use inside a loop: loop_out) and
+   F30 (the first use is a reader inside a loop: first_in_loop) *)
+Definition safe_nested (d : nat) (others : list nat) (post : list item) : bool :=
+  forallb (inner_ok d others) post && negb (existsb (loop_out d) post) && negb (first_in_loop d post).
